@@ -65,8 +65,27 @@ pub mod verif {
             SITE.store(site, Ordering::SeqCst);
         }
 
+        static STALL_SITE: AtomicU32 = AtomicU32::new(0);
+        static STALL_NTH: AtomicU32 = AtomicU32::new(0);
+        static STALL_MS: AtomicU32 = AtomicU32::new(0);
+        static STALL_VISITS: AtomicU32 = AtomicU32::new(0);
+
+        /// Independently of the armed fault: the thread reaching `site` for the `nth` time is held there for `ms` milliseconds
+        /// (a thread that is scheduled out or blocked on I/O for a while, not dead). `site` 0 disarms.
+        pub fn set_stall(site: u32, nth: u32, ms: u32) {
+            STALL_VISITS.store(0, Ordering::SeqCst);
+            STALL_NTH.store(nth, Ordering::SeqCst);
+            STALL_MS.store(ms, Ordering::SeqCst);
+            STALL_SITE.store(site, Ordering::SeqCst);
+        }
+
         /// A fault point. Returns true when the caller has to return; panics when the armed fault says so.
         pub fn point(site: u32) -> bool {
+            if STALL_SITE.load(Ordering::SeqCst) == site
+                && STALL_VISITS.fetch_add(1, Ordering::SeqCst) + 1 == STALL_NTH.load(Ordering::SeqCst)
+            {
+                std::thread::sleep(std::time::Duration::from_millis(STALL_MS.load(Ordering::SeqCst) as u64));
+            }
             if SITE.load(Ordering::SeqCst) != site {
                 return false;
             }
